@@ -264,6 +264,13 @@ def dest_temp_post(prop):
             # destination's directory (same file system => os.replace is atomic) and are not auto-deleted
             res.oblige(p, f'{prop}.local.temp.suffix_is_tmp', sym.lift(kw.get('suffix', ''), STR).z == z3.StringVal('.tmp'))
             d, t = p.value
+            # the directory of the object is (re)created by THIS call, before the temporary is: it may have been removed since any
+            # earlier upload (delete + clean remove empty directories), so "created once" is not "exists now"
+            kinds = [e.kind for e in p.st.events]
+            mk = p.events('mkdir')
+            okm = len(mk) >= 1 and kinds.index('mkdir') < kinds.index('named_temp') and mk[0].data['kwargs'].get('parents') is True and mk[0].data['kwargs'].get('exist_ok') is True
+            res.oblige(p, f'{prop}.local.temp.directory_created_by_this_call', z3.BoolVal(False) if not okm else
+                       mk[0].data['recv'].z == UF('path_parent', PATH, PATH)(path_join(b.me.get('path').z, b.st.lookup('name').z)))
             res.oblige(p, f'{prop}.local.temp.same_directory_and_kept', z3.And(
                 z3.BoolVal(kw.get('delete') is False),
                 kw['dir'].z == UF('path_parent', PATH, PATH)(d.z),
